@@ -146,6 +146,8 @@ def main(tier, seed, only=None):
         if ok_runs and p["pushes"] == 0:
             inert.append(name)
 
+    best, counts = {}, {}
+    cfg_rank = {c: k for k, c in enumerate(core.CFGS)}
     for fam in sorted(fams):
         sts = fams[fam]
         names = sorted({s["driver"] for s in sts})
@@ -167,8 +169,11 @@ def main(tier, seed, only=None):
             if s["sample"] and len(d.samples) < 3:
                 d.samples.append(s["sample"])
             for fp, (desc, rep, n) in s["viol"].items():
-                for _ in range(n):
-                    run.violation(fp, desc, rep)
+                key = (len(rep["pattern"]), cfg_rank.get(rep["cfg"], 99), rep["driver"], repr(rep["pattern"]))
+                cur = best.get(fp)
+                if cur is None or key < cur[0]:
+                    best[fp] = (key, desc, rep)
+                counts[fp] = counts.get(fp, 0) + n
         d.states = d.outcomes = len(outcomes)
         d.extra["per_driver"] = {n: {"scenarios": per_driver[n]["exec"], "deliveries": per_driver[n]["events"],
                                      "events_emitted": per_driver[n]["pushes"],
@@ -177,6 +182,12 @@ def main(tier, seed, only=None):
                                      "error_scenarios": per_driver[n]["errors"],
                                      "error_sample": per_driver[n]["error_sample"],
                                      "fingerprints": sorted(per_driver[n]["viol"])} for n in names}
+
+    # one witness per fingerprint: the smallest (fewest requests, first configuration), independent of job order
+    for fp in sorted(best):
+        _key, desc, rep = best[fp]
+        run.violation(fp, desc, rep)
+        run.violation_counts[fp] = counts[fp]
 
     uni, aux = component_universe()
     concrete = {n for n, (_f, ab) in uni.items()}
